@@ -18,7 +18,7 @@ from __future__ import annotations
 import ast
 
 from ..model import AnchorError, norm, walk_no_nested
-from ..util import cfg_of, call_attr, node_calls, assigned_attrs
+from ..util import cfg_of, call_attr, node_calls, assigned_attrs, canon_text
 
 EXPLANATION = __doc__
 PI = "openpectus.lang.exec.pinterpreter:PInterpreter"
@@ -52,7 +52,7 @@ def run(ctx) -> None:
             n_sites += 1
             ctx.analysed(f)
             a = c.args[0]
-            inst = f"{f.short}: _register_interrupt({norm(a)})"
+            inst = f"{f.short}: _register_interrupt({canon_text(a, f)})"
             params = [p.arg for p in f.node.args.args]
             if isinstance(a, ast.Name) and a.id in params and f.name.startswith("visit_"):
                 ctx.ok("R14a", inst + " - node comes from the tree traversal")
